@@ -32,6 +32,16 @@ def boundary_programs():
                 'if (*R) a = 1; if (R[1] == a) a = 2; (*R)++; R[1]--; *R += 2; a = *R << 1; a = R[i]; R[i] = a; s = *R; }\n' % (ty, addr))
             out['bnds_%x_%s' % (addr, ty.replace(' ', ''))] = (
                 '%s *const R = 0x%x; unsigned char a;\nvoid main() { *R = a; a = R[1]; strobe(R); if (*R) a = 1; a = R[X]; R[Y] = a; }\n' % (ty, addr))
+    # pointer constants defined FROM other pointer constants (another declaration, the same declaration), with
+    # and without an offset, on both sides of the boundary
+    for addr in (0x00, 0x7c, 0xfc, 0xff, 0x100, 0x1000):
+        for off in (0, 4, 0x100):
+            for same in (False, True):
+                d = ('unsigned char *const P = 0x%x, *const Q = P + %d;' if same else 'unsigned char *const P = 0x%x;\nunsigned char *const Q = P + %d;') % (addr, off)
+                if off == 0:
+                    d = d.replace(' + 0', '')
+                out['bndp_%x_%d_%d' % (addr, off, same)] = (
+                    d + '\nunsigned char a;\nvoid main() { *Q = a; a = Q[1]; a = Q[X]; Q[Y] = a; Q[X] = a; X = Q[Y]; Y = Q[X]; if (Q[X]) a = 1; Q[X]++; a = *P; }\n')
     return out
 
 
